@@ -7,7 +7,8 @@
 (* ends.  Parser: receives items; on success it has consumed the EOF item; *)
 (* on a syntax error it drains the channel before returning (lex.drain in  *)
 (* Template.recover); the named bad path RePanicNoDrain is what recover()  *)
-(* does for a runtime.Error.                                               *)
+(* does for a runtime.Error.  Trace_LexProc.tla validates the protocol     *)
+(* events of real parses against these actions.                            *)
 (***************************************************************************)
 EXTENDS Integers, Sequences, TLC
 
@@ -27,22 +28,27 @@ Init == /\ lex = "emit" /\ left \in 0..MaxItems /\ lexErr \in BOOLEAN /\ sentEnd
 \* rendezvous: the lexer's send and the parser's receive happen together
 HandOverItem == /\ lex = "emit" /\ left > 0 /\ par \in {"parse", "drain"}
                 /\ left' = left - 1 /\ UNCHANGED <<lex, lexErr, sentEnd, closed, par>>
+\* the final item (EOF, or the lexer's error item); what the parser makes of it is the parser's own next step
 HandOverEnd  == /\ lex = "emit" /\ left = 0 /\ ~sentEnd /\ par \in {"parse", "drain"}
                 /\ sentEnd' = TRUE
-                \* the parser reacts to the final item: EOF ends a successful parse, an error item starts the drain
-                /\ par' = IF par = "drain" THEN "drain" ELSE IF lexErr THEN "drain" ELSE "returned"
-                /\ UNCHANGED <<lex, left, lexErr, closed>>
+                /\ UNCHANGED <<lex, left, lexErr, closed, par>>
 \* after the last item the lexer's state function returns nil: close(items), goroutine ends
 LexClose == /\ lex = "emit" /\ sentEnd /\ closed' = TRUE /\ lex' = "done" /\ UNCHANGED <<left, lexErr, sentEnd, par>>
-\* the parser hits a syntax error in the middle of the stream
-SyntaxError == /\ par = "parse" /\ ~sentEnd
+\* the parser raises an error: anywhere in the stream, on the lexer's error item, or after EOF ("unexpected EOF")
+SyntaxError == /\ par = "parse"
                /\ par' = IF RePanicNoDrain THEN "returned" ELSE "drain"
                /\ UNCHANGED <<lex, left, lexErr, sentEnd, closed>>
+\* an error item is never ignored
+MustFail == sentEnd /\ lexErr /\ SyntaxError
+\* parseTemplate ends at EOF: Template.parse returns the template
+ParseOK == /\ par = "parse" /\ sentEnd /\ ~lexErr
+           /\ par' = "returned" /\ UNCHANGED <<lex, left, lexErr, sentEnd, closed>>
 \* drain: for range l.items {} ends when the channel is closed
 DrainDone == /\ par = "drain" /\ closed /\ par' = "returned" /\ UNCHANGED <<lex, left, lexErr, sentEnd, closed>>
 
-Next == HandOverItem \/ HandOverEnd \/ LexClose \/ SyntaxError \/ DrainDone
+Next == HandOverItem \/ HandOverEnd \/ LexClose \/ SyntaxError \/ ParseOK \/ DrainDone
 Spec == Init /\ [][Next]_vars /\ WF_vars(HandOverItem) /\ WF_vars(HandOverEnd) /\ WF_vars(LexClose) /\ WF_vars(DrainDone)
+             /\ WF_vars(ParseOK) /\ WF_vars(MustFail)
 
 TypeOK == lex \in {"emit", "done"} /\ par \in {"parse", "drain", "returned"} /\ left \in 0..MaxItems
 ClosedOnce == closed => lex = "done"
